@@ -2,4 +2,13 @@ import IrVerif.Props.C09
 open IrVerif.Writer
 #print axioms C09_budget
 #print axioms C09_callback_mutex
+#print axioms C09_callback_once
 #print axioms C09_tensor_mutex
+#print axioms C09_deadlock_free
+#print axioms C09_terminates
+#print axioms C09_schedule_bounded
+#print axioms C09_maximal_terminal
+#print axioms C09_bytes_serial
+#print axioms C09_error_quiescent
+#print axioms wfb_sound
+#print axioms layoutb_sound
